@@ -31,6 +31,13 @@ def main():
   demo = os.path.abspath(os.path.join(src, "demo.py"))
   wt = f"/tmp/confirm-{os.getpid()}"
   meta = {"property": prop, "name": name}
+  prev_path = os.path.join(VERIF, "seeded", f"{prop}-{name}", "meta.json")
+  if no_suite and os.path.exists(prev_path):
+    prev = json.load(open(prev_path))
+    for k in ("suite", "suite_ok"):
+      if k in prev:
+        meta[k] = prev[k]
+    meta["suite_note"] = "suite result carried over from the first confirmation of this patch"
   assert sh("git -C /repo status --porcelain").stdout.strip() == "", "/repo is not clean"
   r = sh(f"git -C /repo worktree add --detach {wt} HEAD")
   assert r.returncode == 0, r.stderr
@@ -62,7 +69,7 @@ def main():
     sh(f"git -C /repo worktree remove --force {wt}")
     shutil.rmtree(wt, ignore_errors=True)
   meta["confirmed"] = bool(meta.get("demo_clean_rc") == 0 and meta.get("demo_mutated_rc") not in (0, None)
-                           and meta.get("suite_ok", no_suite))
+                           and meta.get("suite_ok", False))
   # ---- run the checks against the change, in /repo itself
   ids = [c["property_id"] for c in json.load(open(f"{VERIF}/MANIFEST.json"))["checks"]]
   results = {}
